@@ -756,3 +756,19 @@ func iteReader(c bool, a, b io.Reader) io.Reader {
 //@   ensures  [code]  result == nil && !clientSide(c.State) ==> outByte(c.Dst, old(outLen(c.Dst))+2) == 0x03 && outByte(c.Dst, old(outLen(c.Dst))+3) == 0xea
 //@   ensures  [codem] result == nil && clientSide(c.State) ==> outByte(c.Dst, old(outLen(c.Dst))+6)^outByte(c.Dst, old(outLen(c.Dst))+2) == 0x03 && outByte(c.Dst, old(outLen(c.Dst))+7)^outByte(c.Dst, old(outLen(c.Dst))+3) == 0xea
 //@   assigns stream(c.Dst)
+
+// Reader.Read: the decision logic around one read of the current frame. The reader chain behind
+// r.frame (limit, unmask, UTF-8) is treated as an arbitrary io.Reader that may also move the
+// payload counter and the UTF-8 state; what is proved is what Read makes of its answer.
+//@ func Reader.Read
+//@   props C04 C07 C16 C18
+//@   call Reader.fragmented inline
+//@   invoke io.Reader.Read assigns (&r.raw).N, (&r.utf8).state, (&r.utf8).codep, (&r.utf8).accepted, r.cr.pos, bytes(p), stream(r.Source)
+//@   requires [inv]   invReader(r) && streamOK(r.Source) && len(r.Extensions) == 0 && r.OnContinuation == nil && r.OnIntermediate == nil && notPartOf(p, r) && (r.frame == nil ==> r.raw.N == 0)
+//@   ensures  [noadvance] old(r.frame) == nil && old(r.State)&ws.StateFragmented == 0 ==> n == 0 && err == ErrNoFrameAdvance
+//@   ensures  [n]     err != ErrInvalidUTF8 ==> 0 <= n && n <= len(p)
+//@   ensures  [eof]   err == io.EOF ==> idleReader(r) && r.State&ws.StateFragmented == 0
+//@   ensures  [short] err == nil && r.frame != nil ==> r.raw.N != 0
+//@   ensures  [more]  err == nil && r.frame == nil ==> r.State&ws.StateFragmented != 0 && r.raw.N == 0
+//@   ensures  [invalid] err == ErrInvalidUTF8 && inErr(r.Source) != ErrInvalidUTF8 ==> idleReader(r)
+//@   ensures  [same]  r.Source == old(r.Source) && r.CheckUTF8 == old(r.CheckUTF8)
